@@ -369,7 +369,10 @@ namespace occa
           type = type.flatten();
           if (!(type.isPointerType() || type.referenceToken))
           {
-            type.setReferenceToken(arg->source);
+            // Unnamed arguments have no source token
+            type.setReferenceToken(arg->source
+                                   ? (token_t*) arg->source
+                                   : (token_t*) function.source);
           }
         }
       }
